@@ -761,3 +761,85 @@ def inline_local_objects(fi, index, fn: ast.FunctionDef | None = None, depth: in
                 break
         fn.body = localise(fn.body, v, fields, expanded=False)
     return ast.fix_missing_locations(fn)
+
+
+def unflag_dict(fn: ast.FunctionDef):
+    """A dictionary used as "visited set + per-node flag":
+
+        D = dict.fromkeys(E)            D[x] = None (mark)        D[n] = TEST(n) (classify)        x in D
+        deque(D) / list(D)              return {n for n, f in D.items() if f}
+
+    is read as a visited set V = set(E) and a result set R: marks become V.add(x), classifications `if TEST(n): R.add(n)`, the final
+    comprehension `R`. Applied only when D is bound once, every other use of D is one of the forms above, and classification values are
+    never None. Returns a rewritten deep copy (unchanged if the idiom is absent)."""
+    fn = copy.deepcopy(fn)
+    binds = [a for a in ast.walk(fn) if isinstance(a, (ast.Assign, ast.AnnAssign)) and isinstance((a.targets[0] if isinstance(a, ast.Assign) else a.target), ast.Name)
+             and isinstance(a.value, ast.Call) and ast.unparse(a.value.func) == "dict.fromkeys" and len(a.value.args) == 1]
+    for b in binds:
+        D = (b.targets[0] if isinstance(b, ast.Assign) else b.target).id
+        if sum(1 for n in ast.walk(fn) if isinstance(n, ast.Name) and n.id == D and isinstance(n.ctx, ast.Store)) != 1:
+            continue
+        V, R = f"{D}__visited", f"{D}__result"
+        ok = [True]
+        src = b.value.args[0]
+
+        class T(ast.NodeTransformer):
+            def visit_Assign(self, n):
+                if len(n.targets) == 1 and isinstance(n.targets[0], ast.Subscript) and isinstance(n.targets[0].value, ast.Name) and n.targets[0].value.id == D:
+                    key = n.targets[0].slice
+                    if isinstance(n.value, ast.Constant) and n.value.value is None:
+                        return ast.copy_location(ast.Expr(value=ast.Call(func=ast.Attribute(value=ast.Name(id=V, ctx=ast.Load()), attr="add", ctx=ast.Load()), args=[key], keywords=[])), n)
+                    if isinstance(n.value, ast.Constant):
+                        ok[0] = False
+                        return n
+                    add = ast.Expr(value=ast.Call(func=ast.Attribute(value=ast.Name(id=R, ctx=ast.Load()), attr="add", ctx=ast.Load()), args=[copy.deepcopy(key)], keywords=[]))
+                    return ast.copy_location(ast.If(test=n.value, body=[add], orelse=[]), n)
+                self.generic_visit(n)
+                return n
+
+            def visit_Compare(self, n):
+                self.generic_visit(n)
+                if len(n.ops) == 1 and isinstance(n.ops[0], (ast.In, ast.NotIn)) and isinstance(n.comparators[0], ast.Name) and n.comparators[0].id == D:
+                    n.comparators[0] = ast.Name(id=V, ctx=ast.Load())
+                return n
+
+            def visit_Call(self, n):
+                self.generic_visit(n)
+                if isinstance(n.func, ast.Name) and n.func.id in ("deque", "list", "iter") and len(n.args) == 1 and isinstance(n.args[0], ast.Name) and n.args[0].id == D:
+                    n.args[0] = copy.deepcopy(src)
+                return n
+
+            def visit_Return(self, n):
+                v = n.value
+                if isinstance(v, (ast.SetComp, ast.ListComp)) and len(v.generators) == 1:
+                    g = v.generators[0]
+                    if isinstance(g.iter, ast.Call) and isinstance(g.iter.func, ast.Attribute) and g.iter.func.attr == "items" and isinstance(g.iter.func.value, ast.Name) and g.iter.func.value.id == D \
+                            and isinstance(g.target, ast.Tuple) and len(g.target.elts) == 2 and all(isinstance(x, ast.Name) for x in g.target.elts) \
+                            and isinstance(v.elt, ast.Name) and v.elt.id == g.target.elts[0].id and len(g.ifs) == 1 and isinstance(g.ifs[0], ast.Name) and g.ifs[0].id == g.target.elts[1].id:
+                        return ast.copy_location(ast.Return(value=ast.Name(id=R, ctx=ast.Load())), n)
+                self.generic_visit(n)
+                return n
+
+        new = T().visit(copy.deepcopy(fn))
+        left = [n for n in ast.walk(new) if isinstance(n, ast.Name) and n.id == D]
+        if not ok[0] or len(left) != 1:  # only the binding itself may remain
+            continue
+
+        def rebind(stmts):
+            out = []
+            for st in stmts:
+                tgt = (st.targets[0] if isinstance(st, ast.Assign) else st.target) if isinstance(st, (ast.Assign, ast.AnnAssign)) else None
+                if isinstance(tgt, ast.Name) and tgt.id == D:
+                    out.append(ast.copy_location(ast.Assign(targets=[ast.Name(id=V, ctx=ast.Store())], value=ast.Call(func=ast.Name(id="set", ctx=ast.Load()), args=[copy.deepcopy(src)], keywords=[])), st))
+                    out.append(ast.copy_location(ast.Assign(targets=[ast.Name(id=R, ctx=ast.Store())], value=ast.Call(func=ast.Name(id="set", ctx=ast.Load()), args=[], keywords=[])), st))
+                    continue
+                for fld in ("body", "orelse", "finalbody"):
+                    blk = getattr(st, fld, None)
+                    if isinstance(blk, list) and blk and isinstance(blk[0], ast.stmt):
+                        setattr(st, fld, rebind(blk))
+                out.append(st)
+            return out
+
+        new.body = rebind(new.body)
+        fn = ast.fix_missing_locations(new)
+    return fn
